@@ -162,6 +162,28 @@ func c05Loss(run *evid.Run) {
 							} else {
 								obs = handlerExec(h, wire.Cmd{Op: "gat", Key: key, TTL: 500, Opaque: 5}, 0)
 							}
+							// after the read: the key must behave like any other key of an unchunked map
+							// (absent if anything was lost): delete, add, read back
+							var after string
+							if cmd == "get" {
+								wantDel := "notfound"
+								if mask == 0 {
+									wantDel = "ok"
+								}
+								nv := makeValue(id, 5+n)
+								id++
+								d := handlerExec(h, wire.Cmd{Op: "delete", Key: key}, 0)
+								a := handlerExec(h, wire.Cmd{Op: "add", Key: key, Value: nv, Flags: 77}, 0)
+								g := handlerExec(h, wire.Cmd{Op: "get", Keys: []string{key}, Opaque: 9}, 0)
+								switch {
+								case d.Class != wantDel:
+									after = "delete after the loss answers " + classKind(d.Class) + " where the map says " + wantDel
+								case a.Class != "ok":
+									after = "add after delete is refused: an entry of the deleted key survives"
+								case len(g.Values) != 1 || !bytes.Equal(g.Values[0].Data, nv) || g.Values[0].Flags != 77:
+									after = "value added after delete does not read back"
+								}
+							}
 							h.Close()
 							run.Eval(1)
 							run.Count("loss_cases", 1)
@@ -190,6 +212,9 @@ func c05Loss(run *evid.Run) {
 								}
 							default:
 								run.Count("loss_reads_miss", 1)
+							}
+							if bad == "" && after != "" {
+								bad = after
 							}
 							if bad != "" {
 								which := lossClass(mask, n)
@@ -244,9 +269,10 @@ func headOfFirst(r wire.Result) string {
 
 // c05Program is two writers and a reader on one key.
 type c05Program struct {
-	NA, NB   int  // chunks of the two sets
-	Pre      int  // chunks of a pre-existing value (-1 = none)
-	ReaderGA bool // reader uses GAT instead of Get
+	NA, NB   int    // chunks of the two sets (NB < 0: no second writer)
+	Pre      int    // chunks of a pre-existing value (-1 = none)
+	ReaderGA bool   // reader uses GAT instead of Get
+	AOp      string // "" = set; "append" / "prepend": writer A extends the pre-existing value by NA bytes-class
 }
 
 func c05Interleave(run *evid.Run) {
@@ -261,21 +287,33 @@ func c05Interleave(run *evid.Run) {
 		for _, na := range []int{1, 2} {
 			for _, nb := range []int{1, 2} {
 				for _, pre := range []int{-1, 1, 3} {
-					plans = append(plans, plan{c05Program{na, nb, pre, false}, -1, 0, false})
+					plans = append(plans, plan{c05Program{NA: na, NB: nb, Pre: pre, ReaderGA: false}, -1, 0, false})
 				}
 			}
 		}
-		plans = append(plans, plan{c05Program{2, 1, 2, true}, -1, 0, false})
-		plans = append(plans, plan{c05Program{3, 3, -1, false}, 3, 30000, false})
-		plans = append(plans, plan{c05Program{3, 2, 3, true}, 3, 30000, false})
-		plans = append(plans, plan{c05Program{3, 3, 2, false}, -1, 20000, true})
-		plans = append(plans, plan{c05Program{4, 2, 3, false}, -1, 10000, true})
+		plans = append(plans, plan{c05Program{NA: 2, NB: 1, Pre: 2, ReaderGA: true}, -1, 0, false})
+		plans = append(plans, plan{c05Program{NA: 3, NB: 3, Pre: -1, ReaderGA: false}, 3, 30000, false})
+		plans = append(plans, plan{c05Program{NA: 3, NB: 2, Pre: 3, ReaderGA: true}, 3, 30000, false})
+		plans = append(plans, plan{c05Program{NA: 3, NB: 3, Pre: 2, ReaderGA: false}, -1, 20000, true})
+		plans = append(plans, plan{c05Program{NA: 4, NB: 2, Pre: 3, ReaderGA: false}, -1, 10000, true})
 	} else {
-		plans = append(plans, plan{c05Program{1, 1, -1, false}, -1, 0, false})
-		plans = append(plans, plan{c05Program{2, 1, -1, false}, -1, 0, false})
-		plans = append(plans, plan{c05Program{1, 2, 1, true}, -1, 0, false})
-		plans = append(plans, plan{c05Program{2, 2, 3, false}, 2, 3000, false})
-		plans = append(plans, plan{c05Program{3, 2, -1, false}, -1, 1500, true})
+		plans = append(plans, plan{c05Program{NA: 1, NB: 1, Pre: -1, ReaderGA: false}, -1, 0, false})
+		plans = append(plans, plan{c05Program{NA: 2, NB: 1, Pre: -1, ReaderGA: false}, -1, 0, false})
+		plans = append(plans, plan{c05Program{NA: 1, NB: 2, Pre: 1, ReaderGA: true}, -1, 0, false})
+		plans = append(plans, plan{c05Program{NA: 2, NB: 2, Pre: 3, ReaderGA: false}, 2, 3000, false})
+		plans = append(plans, plan{c05Program{NA: 3, NB: 2, Pre: -1, ReaderGA: false}, -1, 1500, true})
+	}
+	// a writer that appends / prepends (read + re-insert) next to a reader, with and without a
+	// second writer: the re-inserted value is a value "some single set wrote in full" too
+	for _, op := range []string{"append", "prepend"} {
+		plans = append(plans, plan{c05Program{NA: 0, NB: -1, Pre: 2, AOp: op}, -1, 0, false})
+		plans = append(plans, plan{c05Program{NA: 1, NB: -1, Pre: 1, ReaderGA: true, AOp: op}, -1, 0, false})
+		if run.Thorough() {
+			plans = append(plans, plan{c05Program{NA: 0, NB: 2, Pre: 2, AOp: op}, 3, 20000, false})
+			plans = append(plans, plan{c05Program{NA: 1, NB: -1, Pre: 3, AOp: op}, -1, 0, false})
+		} else {
+			plans = append(plans, plan{c05Program{NA: 0, NB: 1, Pre: 2, AOp: op}, 2, 1500, false})
+		}
 	}
 	allExhaustive := true
 	for pi, pl := range plans {
@@ -285,7 +323,7 @@ func c05Interleave(run *evid.Run) {
 		} else {
 			ex = sched.NewDFS(pl.bound, pl.maxRuns)
 		}
-		name := fmt.Sprintf("A=%d,B=%d,pre=%d,gat=%v", pl.prog.NA, pl.prog.NB, pl.prog.Pre, pl.prog.ReaderGA)
+		name := fmt.Sprintf("A=%s%d,B=%d,pre=%d,gat=%v", pl.prog.AOp, pl.prog.NA, pl.prog.NB, pl.prog.Pre, pl.prog.ReaderGA)
 		for {
 			ch := ex.Next()
 			if ch == nil {
@@ -341,8 +379,28 @@ func c05RunSchedule(prog c05Program, ch *sched.Chooser) (string, map[string]inte
 		h0.Close()
 		full = append(full, v)
 	}
-	va, vb := mk(1, prog.NA), mk(2, prog.NB)
-	full = append(full, va, vb)
+	va, vb := mk(1, prog.NA), mk(2, maxInt(prog.NB, 0))
+	var extra []byte
+	if prog.AOp != "" {
+		// NA = 0: a few bytes (same chunk count); NA = 1: enough to add a chunk
+		extra = makeValue(7, 5+prog.NA*p)
+		pre := full[len(full)-1]
+		if prog.AOp == "append" {
+			va = fullValue{append(append([]byte(nil), pre.Value...), extra...), pre.Flags}
+		} else {
+			va = fullValue{append(append([]byte(nil), extra...), pre.Value...), pre.Flags}
+		}
+	}
+	full = append(full, va)
+	if prog.NB >= 0 {
+		full = append(full, vb)
+		if prog.AOp == "append" {
+			// the append may have read the other writer's complete value
+			full = append(full, fullValue{append(append([]byte(nil), vb.Value...), extra...), vb.Flags})
+		} else if prog.AOp == "prepend" {
+			full = append(full, fullValue{append(append([]byte(nil), extra...), vb.Value...), vb.Flags})
+		}
+	}
 
 	// three connections, ids learned one by one
 	connThread := map[int]int{}
@@ -373,7 +431,8 @@ func c05RunSchedule(prog c05Program, ch *sched.Chooser) (string, map[string]inte
 			time.Sleep(50 * time.Microsecond)
 		}
 	}
-	ctl := sched.NewController(3, ch)
+	nthreads := 3
+	ctl := sched.NewController(nthreads, ch)
 	st.SetGate(func(conn int, r *fakemc.Req) {
 		t, ok := connThread[conn]
 		if !ok {
@@ -387,12 +446,18 @@ func c05RunSchedule(prog c05Program, ch *sched.Chooser) (string, map[string]inte
 	wg.Add(3)
 	go func() {
 		defer wg.Done()
-		setRes[0] = handlerExec(hs[0], wire.Cmd{Op: "set", Key: key, Value: va.Value, Flags: va.Flags}, 0)
+		if prog.AOp != "" {
+			setRes[0] = handlerExec(hs[0], wire.Cmd{Op: prog.AOp, Key: key, Value: extra}, 0)
+		} else {
+			setRes[0] = handlerExec(hs[0], wire.Cmd{Op: "set", Key: key, Value: va.Value, Flags: va.Flags}, 0)
+		}
 		ctl.Done(0)
 	}()
 	go func() {
 		defer wg.Done()
-		setRes[1] = handlerExec(hs[1], wire.Cmd{Op: "set", Key: key, Value: vb.Value, Flags: vb.Flags}, 0)
+		if prog.NB >= 0 {
+			setRes[1] = handlerExec(hs[1], wire.Cmd{Op: "set", Key: key, Value: vb.Value, Flags: vb.Flags}, 0)
+		}
 		ctl.Done(1)
 	}()
 	go func() {
